@@ -15,6 +15,9 @@ Model of `rlib/treap/src/{treap_node.rs, treap.rs}` (properties C03, C16), core 
   `removeAt` returns the ITEM (not its value): `Op.moveAt` / `Op.takeAt` hand exactly that item to
   `insertAt` / `single` again, `Op.dup` clones the only element through `first`/`last`/`collect`
   (`pick`), `Op.collect2` is `collect_into` of two roots into one vector.
+  `Op.insertTag` / `Op.moveRoot` hand `insert_at` an item that still CARRIES A PENDING MODIFICATION
+  (built by hand with `new` + `modify`, or read off the root of a modified one-element treap through
+  the public `root` field — taken out or cloned; `onlyItem?`).
 * `isHeap`, `prios`, `skel`, `consLeft`, `cartShape`, `height` — C16.
 -/
 namespace Rlib.Treap
@@ -218,6 +221,13 @@ def ofItem? (o : Option T) (p : Nat) : Tree T :=
   | some it => single it p
   | none => .nil
 
+/-- the item at the root of a ONE-element treap as a caller reads it through the public `root`
+    field after checking `t.size() == 1` (it may carry a pending modification: nobody pushed it) -/
+def onlyItem? (t : Tree T) : Option T :=
+  match t with
+  | .nil => none
+  | .node it _ _ _ => if I.sz it = 1 then some it else none
+
 /-! ### C16: heap order, canonical shape -/
 
 /-- is the root priority at least `p` (true for the empty tree) -/
@@ -284,6 +294,12 @@ inductive Op (E M V : Type) where
   | dup (i w p : Nat)                     -- if `ts[i].size() <= 1`: push `Treap::from_item(clone of first()/last()/collect()[0])`
                                           --   (`w` = 0/1/other; an empty treap gives `Treap::new()`); else push `Treap::new()`
   | collect2 (i j : Nat)                  -- `TreapNode::collect_into` of `ts[i]`, then of `ts[j]`, into ONE vector
+  -- items that still carry a PENDING modification are handed to `insert_at`:
+  | insertTag (i k : Nat) (v : V) (m : M) (p : Nat)
+                                          -- `let mut it = Item::new(v); it.modify(m); ts[i].insert_at(k, it)`
+  | moveRoot (i w j pos p : Nat)          -- if `ts[i].size() == 1`: the item at its root, read through the public `root` field
+                                          --   (`w = 0`: `ts[i].root.take().unwrap().item`, `ts[i]` is left empty; otherwise
+                                          --   `ts[i].root().unwrap().clone()`), goes to `ts[j].insert_at(pos, it)`; else nothing
 
 /-- What an operation lets the caller observe. -/
 inductive Obs (E G : Type) where
@@ -397,6 +413,27 @@ def stepM (ts : List (Tree T)) : Op E M V → Option (List (Tree T) × Obs E G)
       let rb := collect I b
       some ((ts.set i ra.2).set j rb.2, .listE ((ra.1 ++ rb.1).map I.own))
     | _, _ => none
+  | .insertTag i k v m p =>
+    match ts[i]? with
+    | some t =>
+      -- the item is modified BEFORE it is handed over: it carries the pending modification `m`
+      let it := I.tag m (I.new v)
+      let t' := insertAt I t k it p
+      some (ts.set i t', .moved (I.own it) (size I t'))
+    | none => none
+  | .moveRoot i w j pos p =>
+    match ts[i]?, ts[j]? with
+    | some t, some _ =>
+      match onlyItem? I t with
+      | none => some (ts, .optE none)
+      | some it =>
+        let ts1 := ts.set i (if w = 0 then .nil else t)
+        match ts1[j]? with
+        | some u =>
+          let u' := insertAt I u pos it p
+          some (ts1.set j u', .moved (I.own it) (size I u'))
+        | none => none
+    | _, _ => none
 
 /-- The same operation on plain lists: the specification. It never looks at priorities. -/
 def stepS (ls : List (List E)) : Op E M V → Option (List (List E) × Obs E G)
@@ -487,6 +524,26 @@ def stepS (ls : List (List E)) : Op E M V → Option (List (List E) × Obs E G)
     match ls[i]?, ls[j]? with
     | some a, some b => some (ls, .listE (a ++ b))
     | _, _ => none
+  | .insertTag i k v m _ =>
+    match ls[i]? with
+    | some l =>
+      let x := I.act m (I.own (I.new v))
+      let l' := l.take k ++ x :: l.drop k
+      some (ls.set i l', .moved x l'.length)
+    | none => none
+  | .moveRoot i w j pos _ =>
+    match ls[i]?, ls[j]? with
+    | some l, some _ =>
+      match l with
+      | [x] =>
+        let ls1 := ls.set i (if w = 0 then [] else l)
+        match ls1[j]? with
+        | some u =>
+          let u' := u.take pos ++ x :: u.drop pos
+          some (ls1.set j u', .moved x u'.length)
+        | none => none
+      | _ => some (ls, .optE none)
+    | _, _ => none
 
 /-- Run a history; `none` as soon as one operation is invalid. Observations in order. -/
 def runM (ts : List (Tree T)) : List (Op E M V) → Option (List (Tree T) × List (Obs E G))
@@ -538,9 +595,12 @@ def opStatedB (ls : List (List E)) : Op E M V → Bool
   | .splitBy i g => match ls[i]? with
     | some l => prefixMonoB g l
     | none => true
-  | .splitAt i k | .insertAt i k _ _ => match ls[i]? with
+  | .splitAt i k | .insertAt i k _ _ | .insertTag i k _ _ _ => match ls[i]? with
     | some l => k ≤ l.length
     | none => true
+  | .moveRoot i w j pos _ => match ls[i]?, ls[j]? with
+    | some l, some u => l.length != 1 || decide (pos ≤ (if i = j ∧ w = 0 then 0 else u.length))
+    | _, _ => true
   | .removeAt i k | .takeAt i k _ => match ls[i]? with
     | some l => k < l.length
     | none => true
@@ -622,6 +682,20 @@ def stepP (ps : List (List Nat)) (op : Op E M V) (o : Obs E G) : Option (List (L
     if i = j then none else
     match ps[i]?, ps[j]? with
     | some _, some _ => some ps
+    | _, _ => none
+  | .insertTag i k _ _ p =>
+    match ps[i]? with
+    | some l => some (ps.set i (l.take k ++ p :: l.drop k))
+    | none => none
+  | .moveRoot i w j pos p =>
+    match ps[i]?, ps[j]? with
+    | some l, some _ =>
+      if l.length = 1 then
+        let ps1 := ps.set i (if w = 0 then [] else l)
+        match ps1[j]? with
+        | some u => some (ps1.set j (u.take pos ++ p :: u.drop pos))
+        | none => none
+      else some ps
     | _, _ => none
 
 def runP (ps : List (List Nat)) : List (Op E M V) → List (Obs E G) → Option (List (List Nat))
